@@ -21,7 +21,7 @@ from .. import doccheck, editgen, engine_oracles, engine_run, gen, ooxml, sem
 from . import c06, c10
 
 PROFILE = {"vmerge": 0.0, "point_comment": 0.0, "hyperlink": 0.03, "comment": 0.2, "header": 0.5, "footer": 0.4, "table": 0.25,
-           "sect_break": 0.1}
+           "sect_break": 0.1, "para_mark_rev": 0.2}
 PROFILES = {"default": PROFILE, "no_comments": dict(PROFILE, comment=0.0)}
 STORY = re.compile(r"^word/(document|header\d*|footer\d*)\.xml$")
 COMMENT_PART = re.compile(r"^word/comments\w*\.xml$")
@@ -231,13 +231,19 @@ def oracle(res):
     # section / paragraph / table properties inside the stories
     if res["in_doc"].get("sect") != res["out_doc"].get("sect") or res["in_doc"].get("title_pg") != res["out_doc"].get("title_pg"):
         fails.append("section properties of the main document changed")
-    pin = [(p.get("style"), p.get("ppr")) for _, p in sem.all_paragraphs(res["in_doc"])]
-    pout = [(p.get("style"), p.get("ppr")) for _, p in sem.all_paragraphs(res["out_doc"])]
+    # (a tracked paragraph mark is a w:rPr/w:ins|w:del inside w:pPr: accept-all resolves it, everything else stays)
+    mark = re.compile(r"<w:rPr>\s*(<w:(ins|del)\b[^>]*/>\s*)*</w:rPr>|<w:rPr/>") if op["kind"] == "accept_all" else None
+    norm = (lambda x: mark.sub("", x or "")) if mark else (lambda x: x)
+    pin = [(p.get("style"), norm(p.get("ppr"))) for _, p in sem.all_paragraphs(res["in_doc"])]
+    pout = [(p.get("style"), norm(p.get("ppr"))) for _, p in sem.all_paragraphs(res["out_doc"])]
     it = iter(pout)
-    if op["kind"] != "accept_all" and not all(any(x == y for y in it) for x in pin):
+    if not all(any(x == y for y in it) for x in pin):
         fails.append("paragraph properties (style / numbering / section break) of an original paragraph are not retained in order")
-    tin = [(t["pr"], t.get("grid"), [r["pr"] for r in t["rows"]], [[c["pr"] for c in r["cells"]] for r in t["rows"]]) for t in all_tables(res["in_doc"])]
-    tout = [(t["pr"], t.get("grid"), [r["pr"] for r in t["rows"]], [[c["pr"] for c in r["cells"]] for r in t["rows"]]) for t in all_tables(res["out_doc"])]
+    # (likewise a tracked row: w:ins / w:del inside the row properties is resolved by accept-all)
+    rmark = re.compile(r"<w:(ins|del)\b[^>]*/>") if op["kind"] == "accept_all" else None
+    rn = (lambda x: rmark.sub("", x or "")) if rmark else (lambda x: x)
+    tin = [(t["pr"], t.get("grid"), [rn(r["pr"]) for r in t["rows"]], [[c["pr"] for c in r["cells"]] for r in t["rows"]]) for t in all_tables(res["in_doc"])]
+    tout = [(t["pr"], t.get("grid"), [rn(r["pr"]) for r in t["rows"]], [[c["pr"] for c in r["cells"]] for r in t["rows"]]) for t in all_tables(res["out_doc"])]
     if tin != tout:
         fails.append("table / row / cell properties changed")
     return fails[:6]
